@@ -578,4 +578,277 @@ theorem refItems_inb {h0 : Heap} (hc : closedHeap h0 = true) (env : Env) {sub : 
       injection hr with hr; subst hr
       exact targetIter_inb hc env (this.2 t he) hti
 
+/-! ### one evaluation -/
+
+theorem callInit_spec (h0 : Heap) (i : Init) (hi : i.allocates = true) (h : Heap) :
+    ∃ sv, initSV h0 i = some sv ∧ Frame h.length h (callInit i h).2 ∧
+      Holds (callInit i h).2 h.length (callInit i h).1 sv := by
+  cases i with
+  | shared v => cases hi
+  | int => exact ⟨_, rfl, Frame.rfl' (Nat.le_refl _), rfl, by intro a; simp⟩
+  | str => exact ⟨_, rfl, Frame.rfl' (Nat.le_refl _), rfl, by intro a; simp⟩
+  | list => exact ⟨_, rfl, materialise_holds (Nat.le_refl _) (sv := .cell (.list "list" [])) rfl⟩
+  | tuple => exact ⟨_, rfl, materialise_holds (Nat.le_refl _) (sv := .cell (.tuple "tuple" [])) (by simp [SV.ok, objNotChain])⟩
+  | dict => exact ⟨_, rfl, materialise_holds (Nat.le_refl _) (sv := .cell (.dict "dict" [])) rfl⟩
+  | odict => exact ⟨_, rfl, materialise_holds (Nat.le_refl _) (sv := .cell (.dict "OrderedDict" [])) rfl⟩
+  | acc => exact ⟨_, rfl, materialise_holds (Nat.le_refl _) (sv := .cell (.list "Acc" [])) rfl⟩
+
+/-- a chain result holds input values only -/
+def newOK (n0 : Nat) : Obj → Prop
+  | .tuple c xs => c = "chain" → ∀ x ∈ xs, Val.inb n0 x = true
+  | _ => True
+
+/-- the outcome of one evaluation (result, heap afterwards) realises a reference result:
+    same error, same immediate, or an object allocated by this evaluation (address `≥ b`)
+    that holds exactly the reference content -/
+def ResRel (n0 b : Nat) (out : Except Err Val × Heap) : RefRes → Prop
+  | .err e => out.1 = .error e
+  | .imm v => out.1 = .ok v ∧ ∀ a, v ≠ .ref a
+  | .same v => out.1 = .ok v ∧ Val.inb n0 v = true
+  | .new o => ∃ a, out.1 = .ok (.ref a) ∧ b ≤ a ∧ out.2[a]? = some o ∧ newOK n0 o
+
+theorem newOK_of_notChain {n0 : Nat} {o : Obj} (ho : objNotChain o = true) : newOK n0 o := by
+  cases o with
+  | tuple c xs =>
+    intro hc; subst hc
+    simp [objNotChain] at ho
+  | _ => trivial
+
+theorem resRel_of_holds {n0 b : Nat} {h' : Heap} {r : Val} {sv : SV} (hh : Holds h' b r sv) :
+    ResRel n0 b (.ok r, h') (RefRes.ofSV (.ok sv)) := by
+  cases sv with
+  | imm v => obtain ⟨rfl, hn⟩ := hh; exact ⟨rfl, hn⟩
+  | cell o => obtain ⟨a, rfl, h2, h3, h4⟩ := hh; exact ⟨a, rfl, h2, h3, newOK_of_notChain h4⟩
+
+theorem foldKind_spec {h0 h : Heap} (c : Ctx h0 h) (init : Init) (op : Op) (hs : init.allocates = true)
+    {items : List Val} (hi : ∀ x ∈ items, Val.inb h0.length x = true) :
+    let out := foldLoop op items (callInit init h).1 (callInit init h).2
+    Frame h.length h out.2 ∧
+      ResRel h0.length h.length out (withInit h0 init (refReduce (foldStep op h0) items)) := by
+  obtain ⟨sv, hsv, hf, hh⟩ := callInit_spec h0 init hs h
+  have hl := foldLoop_spec c.closed c.frame.1 op items hi _ _ sv (c.frame.trans c.frame.1 hf) hf.1 hh
+  refine ⟨hf.trans (Nat.le_refl _) hl.1, ?_⟩
+  simp only [withInit, hsv]
+  cases hr : refReduce (foldStep op h0) items sv with
+  | error e => rw [hr] at hl; exact hl.2
+  | ok sv' =>
+    rw [hr] at hl
+    obtain ⟨r, h1, h2⟩ := hl.2
+    have := resRel_of_holds (n0 := h0.length) h2
+    rw [← h1] at this
+    exact this
+
+theorem mergeKind_spec {h0 h : Heap} (c : Ctx h0 h) (init : Init) (op : Op) (hs : init.allocates = true)
+    {items : List Val} (hi : ∀ x ∈ items, Val.inb h0.length x = true) :
+    let out := mergeLoop op (callInit init h).1 items (callInit init h).2
+    Frame h.length h out.2 ∧
+      ResRel h0.length h.length out (withInit h0 init (refReduce (mergeStep op h0) items)) := by
+  obtain ⟨sv, hsv, hf, hh⟩ := callInit_spec h0 init hs h
+  have hl := mergeLoop_spec c.closed c.frame.1 op _ items hi _ sv (c.frame.trans c.frame.1 hf) hf.1 hh
+  refine ⟨hf.trans (Nat.le_refl _) hl.1, ?_⟩
+  simp only [withInit, hsv]
+  cases hr : refReduce (mergeStep op h0) items sv with
+  | error e => rw [hr] at hl; exact hl.2
+  | ok sv' =>
+    rw [hr] at hl
+    obtain ⟨h1, h2⟩ := hl.2
+    have := resRel_of_holds (n0 := h0.length) h2
+    rw [← h1] at this
+    exact this
+
+theorem runFold_spec {h0 h : Heap} (c : Ctx h0 h) (s : FoldSpec) (hs : s.init.allocates = true)
+    {items : List Val} (hi : ∀ x ∈ items, Val.inb h0.length x = true) :
+    Frame h.length h (runFold s items h).2 ∧
+      ResRel h0.length h.length (runFold s items h) (refKind h0 s items) := by
+  unfold runFold refKind
+  cases hk : s.kind with
+  | fold => exact foldKind_spec c s.init s.op hs hi
+  | flatten =>
+    simp only
+    by_cases hl : s.lazy = true
+    · simp only [hl, if_true]
+      refine ⟨Frame.append (Nat.le_refl _) _, h.length, rfl, Nat.le_refl _, by simp [materialise], ?_⟩
+      intro _; exact hi
+    · simp only [hl, if_false]
+      exact foldKind_spec c s.init s.op hs hi
+  | merge => exact mergeKind_spec c s.init s.op hs hi
+
+theorem glomit_spec {h0 h : Heap} (c : Ctx h0 h) (env : Env)
+    (hcatch : regLookup env.foldCatch "UnregisteredTarget" = some "FoldError")
+    (s : FoldSpec) (hs : s.init.allocates = true) {target : Val}
+    (hsub : ∀ k ∈ s.sub, Val.inb h0.length k = true) (ht : Val.inb h0.length target = true) :
+    Frame h.length h (glomit env s h target).2 ∧
+      ResRel h0.length h.length (glomit env s h target) (refSpec env h0 s target) := by
+  have hes := evalSub_ext c s.sub target hsub ht
+  unfold glomit refSpec refItems
+  rw [hes.1]
+  cases he : evalSub h0 s.sub target with
+  | error e => exact ⟨Frame.rfl' (Nat.le_refl _), rfl⟩
+  | ok t =>
+    have htin := hes.2 t he
+    simp only [targetIter_ext c env htin]
+    cases hti : targetIter env h0 t with
+    | error ie =>
+      cases ie with
+      | unregistered => exact ⟨Frame.rfl' (Nat.le_refl _), by simp [convertIterErr, hcatch, ResRel]⟩
+      | raised cls => exact ⟨Frame.rfl' (Nat.le_refl _), rfl⟩
+    | ok items => exact runFold_spec c s hs (targetIter_inb c.closed env htin hti)
+
+/-! ### flatten(levels=n): n-fold join -/
+
+theorem ResRel.mono {n0 b b' : Nat} {out : Except Err Val × Heap} {r : RefRes} (hb : b ≤ b')
+    (hr : ResRel n0 b' out r) : ResRel n0 b out r := by
+  cases r with
+  | new o => obtain ⟨a, h1, h2, h3⟩ := hr; exact ⟨a, h1, Nat.le_trans hb h2, h3⟩
+  | _ => exact hr
+
+theorem chainEval_single (env : Env) (s : FoldSpec) (h : Heap) (cur : Val) :
+    chainEval env [s] h cur = glomit env s h cur := by
+  simp only [chainEval]
+  rcases hg : glomit env s h cur with ⟨r, h'⟩
+  cases r <;> rfl
+
+/-- iterating a chain object whose outer items are input values -/
+theorem targetIter_chain {h0 h : Heap} (c : Ctx h0 h) (env : Env)
+    (hchain : iterHandlerOf env "chain" true = some "iter") {a : Nat} {xs : List Val}
+    (ha : h[a]? = some (.tuple "chain" xs)) (hx : ∀ x ∈ xs, Val.inb h0.length x = true) :
+    targetIter env h (.ref a) =
+      match joinWith (rawIter1 h0) xs with
+      | some ys => .ok ys
+      | none => .error (.raised "TypeError") := by
+  have h1 : (Val.ref a).clsName h = "chain" := by simp [Val.clsName, ha, Obj.cls]
+  have h2 : hasIter h (.ref a) = true := by simp [hasIter, ha]
+  have h3 : rawIter h (.ref a) = joinWith (rawIter1 h0) xs := by
+    simp [rawIter, ha, joinWith_ext c hx]
+  simp only [targetIter, iterHandler, h1, h2, hchain, h3]
+  cases joinWith (rawIter1 h0) xs <;> rfl
+
+/-- what `refFlattenFn` does once the joins are done -/
+def refAfter (h0 : Heap) (init : InitArg) : Option (List Val) → RefRes
+  | none => .err typeErr
+  | some ys => refKind h0 (mkFlatten [] init) ys
+
+theorem refAfter_eq (h0 : Heap) (init : InitArg) (j : Option (List Val)) :
+    (match j with
+      | none => RefRes.err typeErr
+      | some ys =>
+        match init with
+        | .lazy => .new (.tuple "chain" ys)
+        | .init i => withInit h0 i (refReduce (foldStep .iadd h0) ys)) = refAfter h0 init j := by
+  cases j with
+  | none => rfl
+  | some ys => cases init <;> rfl
+
+theorem joinN_succ (h0 : Heap) (n : Nat) (xs : List Val) :
+    joinN h0 (n + 1) xs = match joinWith (rawIter1 h0) xs with
+      | some ys => joinN h0 n ys
+      | none => none := rfl
+
+/-- from a chain object on: `k` lazy levels and the final one are `k+1` joins -/
+theorem chainStage_spec {h0 : Heap} (hc : closedHeap h0 = true) (env : Env)
+    (hchain : iterHandlerOf env "chain" true = some "iter")
+    (hcatch : regLookup env.foldCatch "UnregisteredTarget" = some "FoldError")
+    (init : InitArg) (hinit : init.allocates = true) :
+    ∀ (k : Nat) (h : Heap) (a : Nat) (xs : List Val), Frame h0.length h0 h →
+      h[a]? = some (.tuple "chain" xs) → (∀ x ∈ xs, Val.inb h0.length x = true) →
+      let out := chainEval env (List.replicate k (mkFlatten [] .lazy) ++ [mkFlatten [] init]) h (.ref a)
+      Frame h.length h out.2 ∧
+        ResRel h0.length h.length out (refAfter h0 init (joinN h0 (k + 1) xs)) := by
+  have hfin : (mkFlatten [] init).init.allocates = true := by
+    cases init with
+    | lazy => rfl
+    | init i => exact hinit
+  intro k
+  induction k with
+  | zero =>
+    intro h a xs hf ha hx
+    have c : Ctx h0 h := ⟨hc, hf⟩
+    simp only [List.replicate, List.nil_append, chainEval_single]
+    have hsub : (mkFlatten [] init).sub = [] := by cases init <;> rfl
+    unfold glomit
+    simp only [hsub, evalSub, targetIter_chain c env hchain ha hx, joinN_succ, joinN]
+    cases hj : joinWith (rawIter1 h0) xs with
+    | none => exact ⟨Frame.rfl' (Nat.le_refl _), rfl⟩
+    | some ys => exact runFold_spec c _ hfin (joinWith_inb hc hj)
+  | succ k ih =>
+    intro h a xs hf ha hx
+    have c : Ctx h0 h := ⟨hc, hf⟩
+    simp only [List.replicate, List.cons_append, chainEval]
+    have hg : glomit env (mkFlatten [] .lazy) h (.ref a) =
+        match joinWith (rawIter1 h0) xs with
+        | some ys => (.ok (.ref h.length), h ++ [.tuple "chain" ys])
+        | none => (.error typeErr, h) := by
+      unfold glomit
+      simp only [mkFlatten, evalSub, targetIter_chain c env hchain ha hx]
+      cases joinWith (rawIter1 h0) xs <;> rfl
+    rw [hg, joinN_succ]
+    cases hj : joinWith (rawIter1 h0) xs with
+    | none => exact ⟨Frame.rfl' (Nat.le_refl _), rfl⟩
+    | some ys =>
+      simp only
+      have hfr : Frame h.length h (h ++ [Obj.tuple "chain" ys]) := Frame.append (Nat.le_refl _) _
+      have := ih (h ++ [.tuple "chain" ys]) h.length ys (hf.trans hf.1 hfr)
+        List.getElem?_concat_length (joinWith_inb hc hj)
+      exact ⟨hfr.trans hfr.1 this.1, ResRel.mono hfr.1 this.2⟩
+
+theorem flattenFn_spec {h0 h : Heap} (c : Ctx h0 h) (env : Env)
+    (hchain : iterHandlerOf env "chain" true = some "iter")
+    (hcatch : regLookup env.foldCatch "UnregisteredTarget" = some "FoldError")
+    (sub : List Val) (init : InitArg) (levels : Int) (hinit : init.allocates = true) {target : Val}
+    (hsub : ∀ k ∈ sub, Val.inb h0.length k = true) (ht : Val.inb h0.length target = true) :
+    Frame h.length h (flattenFn env sub init levels h target).2 ∧
+      ResRel h0.length h.length (flattenFn env sub init levels h target)
+        (refFlattenFn env h0 sub init levels target) := by
+  have hfin : (mkFlatten [] init).init.allocates = true := by
+    cases init with
+    | lazy => rfl
+    | init i => exact hinit
+  unfold flattenFn refFlattenFn
+  by_cases h0l : (levels == 0) = true
+  · simp only [h0l, if_true]; exact ⟨Frame.rfl' (Nat.le_refl _), rfl, ht⟩
+  · simp only [h0l, if_false]
+    by_cases hneg : levels < 0
+    · simp only [hneg, if_true]; exact ⟨Frame.rfl' (Nat.le_refl _), rfl⟩
+    · simp only [hneg, if_false]
+      have hes := evalSub_ext c sub target hsub ht
+      unfold refItems
+      rw [hes.1]
+      cases he : evalSub h0 sub target with
+      | error e => exact ⟨Frame.rfl' (Nat.le_refl _), rfl⟩
+      | ok t =>
+        have htin := hes.2 t he
+        simp only [refAfter_eq]
+        cases hk : levels.toNat - 1 with
+        | zero =>
+          simp only [List.replicate, List.nil_append, chainEval_single, joinN]
+          have hg := glomit_spec c env hcatch (mkFlatten [] init) hfin (target := t)
+            (by cases init <;> simp [mkFlatten]) htin
+          have hsub' : (mkFlatten [] init).sub = [] := by cases init <;> rfl
+          simp only [refSpec, refItems, hsub', evalSub] at hg
+          cases hti : targetIter env h0 t with
+          | error ie => cases ie <;> (simp only [hti] at hg; exact hg)
+          | ok items => simp only [hti] at hg; exact hg
+        | succ k =>
+          simp only [List.replicate, List.cons_append, chainEval]
+          have hg : glomit env (mkFlatten [] .lazy) h t =
+              match targetIter env h0 t with
+              | .ok items => (.ok (.ref h.length), h ++ [.tuple "chain" items])
+              | .error ie => (.error (convertIterErr env ie), h) := by
+            unfold glomit
+            simp only [mkFlatten, evalSub, targetIter_ext c env htin]
+            cases targetIter env h0 t <;> rfl
+          rw [hg]
+          cases hti : targetIter env h0 t with
+          | error ie =>
+            cases ie with
+            | unregistered => exact ⟨Frame.rfl' (Nat.le_refl _), by simp [convertIterErr, hcatch, ResRel]⟩
+            | raised cls => exact ⟨Frame.rfl' (Nat.le_refl _), rfl⟩
+          | ok items =>
+            simp only
+            have hfr : Frame h.length h (h ++ [Obj.tuple "chain" items]) := Frame.append (Nat.le_refl _) _
+            have := chainStage_spec c.closed env hchain hcatch init hinit k
+              (h ++ [.tuple "chain" items]) h.length items (c.frame.trans c.frame.1 hfr)
+              List.getElem?_concat_length (targetIter_inb c.closed env htin hti)
+            exact ⟨hfr.trans hfr.1 this.1, ResRel.mono hfr.1 this.2⟩
+
 end Glom.C15
